@@ -156,11 +156,26 @@ def run(prog, tier, res):
     pad_bad = []
     per_path = []
     pad_sites = [(bb, t, 1, False) for bb, t in takes] + [(bb, t, 1, True) for bb, t in resizes]
+    # third way: the CRC continued over a prefix of a constant zero buffer, `crc32c_append(crc32c(payload), &ZEROS[..p])`
+    appends = [(bb, t) for bb, t in pb.calls() if cname(t).endswith("crc32c::crc32c_append")]
+    append_pad = {}
+    for bb, t in appends:
+        a0 = strip(pan.terms.operand(t["args"][0]))
+        a1 = strip(pan.terms.operand(t["args"][1]))
+        while a1[0] == "cast" and "Unsize" in str(a1[1]):
+            a1 = strip(a1[2])
+        if a0[0] == "call" and a0[1].endswith("crc32c::crc32c") and len(a0[2]) == 1 and field_names_subst(prog, psy.name(a0[2][0])) == "arg1.payload" \
+                and a1[0] == "call" and short(a1[1]) == "Index::index" and len(a1[2]) == 2:
+            zb = psy.ev.byte_array(a1[2][0])
+            rg = strip(a1[2][1])
+            if zb is not None and all(all(b_ == 0 for b_ in byte) for byte in zb) and rg[0] == "aggr" and rg[1].endswith("RangeTo::RangeTo") and len(rg[2]) == 1:
+                append_pad[bb] = (rg[2][0], len(zb))
+                pad_sites.append((bb, t, None, False))
     for bb, t, ai, is_resize in pad_sites:
         for path in forward_paths(pan, bb) or [([], [0])]:
             ats = path_atoms(psy, path)
             psy.set_path(path[1])
-            v = psy.poly(pan.terms.operand(t["args"][ai]))
+            v = psy.poly(pan.terms.operand(t["args"][ai])) if ai is not None else psy.poly(append_pad[bb][0])
             fill = strip(pan.terms.operand(t["args"][2])) if is_resize else ("const", 0)
             psy.set_path(None)
             if is_resize and v is not None:
@@ -193,6 +208,11 @@ def run(prog, tier, res):
         res.violate(R4, PCRC, "padding", "payload_crc32c(): %s" % pad_bad[0], pb.where())
     prets = [field_names_subst(prog, psy.name(t)) for _, t in pan.ret_assignments()]
     pw_ok = len(prets) == 1 and prets[0].startswith("not(crc32c::crc32c(Iterator::collect(Iterator::chain(arg1.payload,Iterator::take(iter::repeat(0),")
+    if not pw_ok and len(prets) == 1 and len(append_pad) == 1 and len(appends) == 1:
+        # !crc32c_append(crc32c(payload), &ZEROS[..p]): the CRC of payload ++ p zero bytes (p checked above, p <= len(ZEROS)
+        # by the finite evaluation: a longer prefix would have been reported as a wrong padding)
+        rt_ = [strip(t_) for _, t_ in pan.ret_assignments()]
+        pw_ok = len(rt_) == 1 and rt_[0][0] == "un" and rt_[0][1] == "Not" and strip(rt_[0][2])[0] == "call" and strip(rt_[0][2])[3] == appends[0][0]
     if not pw_ok and len(prets) == 1:
         # a buffer filled in place: the hashed value is one local Vec<u8>, and the calls that take it mutably are, in
         # dominance order, [payload copy] then [zero padding]:
